@@ -480,6 +480,44 @@ Definition read_chain (l : list Z) : list (list tx) * list Z :=
   | n :: r => read_counted read_block (skipn (N.to_nat (nZ n)) r)
   end.
 
+(* Commit points of the real index for a case's driving parameters (see harness/hx-satsidx):
+   sched = commit_interval headers_far flags update_height...  With far-ahead headers there are no
+   savepoint commits, so Updater::update_index commits after every commit_interval-th block of an
+   update() call and at the end of the call; the calls index the blocks up to each update height
+   (heights <= 1 are skipped: the genesis block is already in the node) and finally all blocks.
+   Without far-ahead headers savepoint commits interleave; the entry point then uses the
+   commit-every-block schedule (equal outside the known class, C12). *)
+Fixpoint call_flags (ci : N) (k : nat) (unc : N) : list bool :=
+  match k with
+  | O => []
+  | S k' =>
+    let u := unc + 1 in
+    if orb (u =? ci) (Nat.eqb k' 0) then true :: call_flags ci k' 0 else false :: call_flags ci k' u
+  end.
+
+Fixpoint sched_flags (ci : N) (stops : list N) (idx inst len : N) : list bool :=
+  match stops with
+  | [] => []
+  | s :: r =>
+    let s' := N.min s len in
+    if andb (s' <=? inst) (negb (s' =? len)) then sched_flags ci r idx inst len
+    else
+      let inst' := N.max inst s' in
+      call_flags ci (N.to_nat (inst' - idx)) 0 ++ sched_flags ci r inst' inst' len
+  end.
+
+Definition case_flags (inp : list Z) (len : N) : list bool :=
+  match inp with
+  | [] => []
+  | n :: r =>
+    let sc := ns (firstn (N.to_nat (nZ n)) r) in
+    match sc with
+    | ci :: far :: _ :: updates =>
+      if far =? 0 then [] else sched_flags (N.max ci 1) (updates ++ [len]) 0 1 len
+    | _ => []
+    end
+  end.
+
 Definition w_ranges (rs : list range) : list Z :=
   zN (N.of_nat (length rs)) :: flat_map (fun r => [zN (fst r); zN (snd r)]) rs.
 
@@ -491,13 +529,6 @@ Definition w_state (st : state) : list Z :=
   ++ w_ranges (lost st) ++ [zN (lost_sats st)]
   ++ zN (N.of_nat (length sp))
   :: flat_map (fun kv => [zN (fst kv); zN (fst (fst (snd kv))); zN (snd (fst (snd kv))); zN (snd (snd kv))]) sp.
-
-Definition run_C01 (inp : list Z) : list Z :=
-  match run (fst (read_chain inp)) with
-  | Ok st => w_state st
-  | Err e => [(-1)%Z; zN e]
-  | Panic t => [(-2)%Z]
-  end.
 
 (* C02: lookups.  Queries: 1 s = find, 2 a b = find_range, 3 txid vout = list, 4 s = rare_sat_satpoint,
    5 s = Sat::common + Epoch::from(Sat), 6 h = Height::subsidy + Height::starting_sat, 7 s = Sat::height.
@@ -554,10 +585,3 @@ Definition boundary_finds (st : state) : list Z :=
   let es := isort (fun a b => op_le (fst a) (fst b)) (entries st) in
   flat_map (fun kv => flat_map (fun r => w_find (find st (fst r)) ++ w_find (find st (snd r - 1))) (snd kv)) es.
 
-Definition run_C02 (inp : list Z) : list Z :=
-  let '(c, q) := read_chain inp in
-  match run c with
-  | Ok st => 0%Z :: zN (height st) :: boundary_finds st ++ answer (length q) st q
-  | Err e => [(-1)%Z; zN e]
-  | Panic t => [(-2)%Z]
-  end.
